@@ -132,7 +132,12 @@ def get_mod_nodes_remove_incompatibilities(
             removed_nodes -= confirmed_nodes
             # Confirmed nodes are kept, so the edges between them should be kept too
             removed_edges -= {e for e in removed_edges if e[0] in confirmed_nodes and e[1] in confirmed_nodes}
-            raise IncompatibilityError('Incompatibility constraint derives from confirmed nodes', {edge}, removed_nodes)
+            # Also mark the conflict between confirmed nodes only (the confirmed incompatible node and the confirmed
+            # nodes that inevitably derive the other node): these can never be removed by later choices, so the graph
+            # stays marked as infeasible
+            conflict_edges = {edge} | {(edge[0], node, edge[2], edge[3]) for node in deriving_nodes & confirmed_nodes}
+            raise IncompatibilityError('Incompatibility constraint derives from confirmed nodes', conflict_edges,
+                                       removed_nodes)
 
     return removed_nodes
 
